@@ -222,12 +222,12 @@ def grep_forbidden():
     return bad
 
 
-def audit_assumptions(pid, theorems):
+def audit_assumptions(pid, theorems, prop_files=None):
     """Print Assumptions of every property theorem, freshly, by compiling a tiny audit file."""
     d = os.path.join(CACHE, "audit")
     os.makedirs(d, exist_ok=True)
     path = os.path.join(d, "Audit_%s.v" % pid)
-    lines = ["From V.Properties Require Import %s." % pid]
+    lines = ["From V.Properties Require Import %s." % pf for pf in (prop_files or [pid])]
     for t in theorems:
         lines.append('Goal True. idtac "@@THEOREM %s". Abort.' % t)
         lines.append("Print Assumptions %s." % t)
